@@ -29,7 +29,7 @@ ASSUMPTIONS = [
 TIMEOUT = {"quick": 400, "thorough": 2400}
 REQUIRED = {"reversibility_checks": 300, "reversibility_checks:reflecting": 60, "volume_checks": 100, "volume_checks:reflecting": 10,
             "energy_slopes:free": 60, "energy_order_verdicts": 20, "energy_slopes:reflecting": 30, "kinetic_checks": 300, "stat_tests": 40,
-            "finite_diff_checks": 100, "finite_diff_checks:zero_coordinate": 30}
+            "finite_diff_checks": 100, "finite_diff_checks:zero_coordinate": 30, "finite_diff_checks:far_narrow_box": 100}
 
 
 def jobs(tier, seed):
@@ -303,6 +303,48 @@ def run_job(job, rec):
             ok = (not isinstance(g, Raised)) and np.shape(g) == (d,) and bool(np.all(np.isfinite(g))) and bool(np.abs(np.asarray(g) - true).max() <= 2e-3 * gs)
             rec.check(ok, "finite-difference-gradient",
                       lambda: f"T={T}: finite_diff({t}) = {g!r} but the gradient of the log-density is {true}", {**cfg, "t": t})
+    # ------------------------------------------------ (e') fallback gradient in narrow boxes far from zero, next to the walls
+    class Shifted:
+        def __init__(self, pot, centre):
+            self.pot, self.c = pot, centre
+
+        def __call__(self, t):
+            return self.pot(np.asarray(t, float) - self.c)
+
+        def grad(self, t):
+            return self.pot.grad(np.asarray(t, float) - self.c)
+
+    for c in range(max(4, job["n_cfg"] // 3)):
+        d = int(rng.choice([1, 2, 3]))
+        pot = Potential(rng, d)
+        s = pot.s
+        centre = rng.choice([-1.0, 1.0], size=d) * s * 10.0 ** rng.uniform(3, 6.5, size=d)
+        sp = Shifted(pot, centre)
+        lo, hi = centre - s * rng.uniform(0.5, 2, size=d), centre + s * rng.uniform(0.5, 2, size=d)
+        T = float(rng.choice([1.0, 3.0]))
+        fctx = {"far_narrow_box": c, "d": d, "scale": s, "centre": centre, "lower": lo, "upper": hi, "T": T}
+        rec.context = fctx
+        ch = guarded(HamiltonianChain, posterior=sp, start=centre.copy(), grad=None, temperature=T, bounds=(lo.copy(), hi.copy()), display_progress=False)
+        if isinstance(ch, Raised):
+            rec.violation("raised", f"HamiltonianChain construction raised {ch!r}", fctx)
+            continue
+        w = hi - lo
+        for where in ("interior", "at_lower", "at_upper"):
+            t = lo + w * rng.uniform(0.1, 0.9, size=d)
+            if where == "at_lower":
+                t = lo + w * 10.0 ** rng.uniform(-9, -5, size=d)
+            elif where == "at_upper":
+                t = hi - w * 10.0 ** rng.uniform(-9, -5, size=d)
+            g = guarded(ch.finite_diff, t.copy())
+            true = sp.grad(t)
+            rec.count("finite_diff_checks:far_narrow_box")
+            rec.case(digest("fd-far", centre, lo, hi, t), nontrivial=True)
+            gs = np.abs(true).max() + 1.0 / s
+            # the displaced point is ~1e-3 widths away and the coordinates are ~1e6 widths from zero: rounding of t alone costs ~1e-4
+            ok = (not isinstance(g, Raised)) and np.shape(g) == (d,) and bool(np.all(np.isfinite(g))) and bool(np.abs(np.asarray(g) - true).max() <= 2e-2 * gs)
+            rec.check(ok, "finite-difference-gradient",
+                      lambda: f"box of width ~{w.max():.3g} centred at {centre} ({where}): finite_diff = {g!r}, gradient of the log-density = {true}", fctx)
+
     rec.note("reflecting_slopes", all_refl_slopes)
 
 
